@@ -1082,6 +1082,18 @@ func ruleERR(c *Ctx) []Obligation {
 				}
 				break
 			}
+			// an error constructor — a function whose only result is the error it builds — used as the
+			// value of a panic: panic(errNotImplemented(kind, n)) is fmt.Errorf by another name, not a
+			// failed operation whose error is dropped
+			if outer, ok := par.(*ast.CallExpr); ok && rs.Len() == 1 {
+				if id, ok := unparen(outer.Fun).(*ast.Ident); ok && id.Name == "panic" {
+					if _, isBuiltin := info.ObjectOf(id).(*types.Builtin); isBuiltin {
+						o.Detail = "an error constructor (single result) used as the value of a panic"
+						obs = append(obs, o)
+						return true
+					}
+				}
+			}
 			if outer, ok := par.(*ast.CallExpr); ok {
 				if pi, isSink := c.errSinks()[calleeOf(info, outer)]; isSink && pi < len(outer.Args) && unparen(outer.Args[pi]) == ast.Expr(call) {
 					o.Detail = "handed to the error collector, whose own result is judged at that call"
